@@ -43,9 +43,11 @@ def e3(n, **kw):
 
 
 PLAN = {
-    "C01": {"quick": [e2(7, 4), e1(16000, kinds=ALL_KINDS, profiles=["full_store", "mixed", "burst", "prio_storm"])],
+    "C01": {"quick": [e2(7, 4), e1(14000, kinds=ALL_KINDS, profiles=["full_store", "mixed", "burst", "prio_storm"]),
+                      e1(4000, kinds=ALL_KINDS, profiles=["full_store", "mixed"], illformed=0.04)],
             "thorough": [e2(9, 16), e1(240000, kinds=ALL_KINDS, profiles=["full_store", "mixed", "burst", "prio_storm"]), e3(20000)]},
-    "C02": {"quick": [e2(7, 4), e1(16000, kinds=ALL_KINDS, profiles=["hoarder", "mixed", "burst", "cancel_storm"])],
+    "C02": {"quick": [e2(7, 4), e1(14000, kinds=ALL_KINDS, profiles=["hoarder", "mixed", "burst", "cancel_storm"]),
+                      e1(4000, kinds=ALL_KINDS, profiles=["hoarder", "mixed"], illformed=0.04)],
             "thorough": [e2(9, 16), e1(240000, kinds=ALL_KINDS, profiles=["hoarder", "mixed", "burst", "cancel_storm"]), e3(20000)]},
     "C04": {"quick": [e2(7, 4), e1(16000), e3(2000)], "thorough": [e2(9, 16), e1(240000), e3(20000)]},
     "C05": {"quick": [e2(7, 4), e1(16000, profiles=["prio_storm", "full_store", "hoarder"]), {"engine": "E1p", "params": {}, "cases": 12000},
@@ -53,8 +55,8 @@ PLAN = {
             "thorough": [e2(9, 16), e1(200000, profiles=["prio_storm", "full_store", "hoarder"]), {"engine": "E1p", "params": {}, "cases": 160000},
                          {"engine": "E2p", "params": {}, "cases": 8736}]},
     "C06": {"quick": [e2(7, 4), e1(12000, profiles=["hoarder", "mixed"]),
-                      e1(8000, kinds=["buffer_fifo", "buffer_lifo", "bufferstore_fifo", "bufferstore_lifo", "fleet", "filter", "rprs"], profiles=["cancel_storm"]), e3(2000, templates=["fanin", "multisink", "diamond", "line"])],
-            "thorough": [e2(9, 16), e1(240000, profiles=["hoarder", "mixed", "cancel_storm"]), e3(20000)]},
+                      e1(8000, kinds=["buffer_fifo", "buffer_lifo", "bufferstore_fifo", "bufferstore_lifo", "fleet", "filter", "rprs"], profiles=["cancel_storm"]), e5(4000), e3(2000, templates=["fanin", "multisink", "diamond", "line"])],
+            "thorough": [e2(9, 16), e1(240000, profiles=["hoarder", "mixed", "cancel_storm"]), e5(40000), e3(20000)]},
     "C07": {"quick": [e2(6, 4, illformed=True), e1(12000, kinds=ALL_KINDS, illformed=0.08)],
             "thorough": [e2(8, 16, illformed=True), e1(160000, kinds=ALL_KINDS, illformed=0.08)]},
     "C03": {"quick": [e3(8000)], "thorough": [e3(80000)]},
@@ -77,7 +79,8 @@ PLAN = {
                       e3(8000), e1(8000, kinds=ALL_KINDS)],
             "thorough": [{"engine": "E8", "params": {"table": "matrix"}, "cases": 7776}, {"engine": "E8", "params": {"table": "invalid"}, "cases": 38},
                          e3(80000), e1(80000, kinds=ALL_KINDS)]},
-    "C14": {"quick": [e5(12000), e1(6000, kinds=["fleet"])], "thorough": [e5(200000), e1(80000, kinds=["fleet"])]},
+    "C14": {"quick": [e5(12000), e1(6000, kinds=["fleet"], profiles=["hoarder", "cancel_storm", "mixed", "slow_consumer"])],
+            "thorough": [e5(200000), e1(80000, kinds=["fleet"], profiles=["hoarder", "cancel_storm", "mixed", "slow_consumer"])]},
 }
 
 RULES = {
